@@ -14,6 +14,7 @@ from spec_classes.utils.mutation import (
     mutate_attr,
     mutate_value,
     prepare_attr_value,
+    protect_via_deepcopy,
     under_construction,
 )
 
@@ -202,11 +203,22 @@ class TransformAttrMethod(AttrMethodDescriptor):
     ):
         if not _if:
             return self
+
+        def old_value():
+            value = getattr(self, attr_spec.name, MISSING)
+            own_spec = self.__spec_class__.attrs.get(attr_spec.name, attr_spec)
+            if _inplace or own_spec.do_not_copy:
+                return value
+            # The transform may build its result out of what it is handed (a
+            # new list holding the old items, say): hand it a private copy,
+            # so that the returned instance shares nothing with this one.
+            return protect_via_deepcopy(value)
+
         return WithAttrMethod.with_attr(
             attr_spec,
             self,
             _new_value=mutate_value(
-                old_value=Proxy(lambda: getattr(self, attr_spec.name, MISSING)),
+                old_value=Proxy(old_value),
                 transform=_transform,
                 constructor=attr_spec.constructor,
                 expected_type=attr_spec.type,
